@@ -224,6 +224,9 @@ pub enum SrcEv {
     Pending,
 }
 
+/// Strict: a source that has returned `Ready(None)` must never be polled again (the `Stream`
+/// contract leaves that unspecified — `unfold` panics, a cursor may start over); a second poll
+/// after the end panics here, which `execute` reports as the observable `panic` (seed C02c).
 pub struct ScriptedSource {
     pub evs: VecDeque<SrcEv>,
     pub polls_after_end: usize,
@@ -235,6 +238,9 @@ impl Stream for ScriptedSource {
         match self.evs.pop_front() {
             None => {
                 self.polls_after_end += 1;
+                if self.polls_after_end > 1 {
+                    panic!("message source polled again after it returned Ready(None)");
+                }
                 Poll::Ready(None)
             }
             Some(SrcEv::Pending) => Poll::Pending,
